@@ -550,5 +550,18 @@ PROPS["C03"]["explanation"] += (" c03l2: what every public receiver yielded must
     "field by field, in order, nothing missing and nothing extra (oracle).")
 PROPS["C03"]["trusted_base"] = PROPS["C03"]["trusted_base"] + L2_TRUSTED
 
+PROPS["C04"]["check_mods"].append("C04h")
+PROPS["C04"]["drivers"].append({"name": "c04h", "n_quick": 500, "n_thorough": 40000})
+PROPS["C04"]["rule"] += (" The caller's side (c04h, HandleProbe): the real IoLoopHandle - call::<QosOk>, "
+    "call::<DeclareOk>, get, consume, call_nowait - with every reply queue of length <= 2 over {QosOk, DeclareOk, "
+    "GetOk(None), ConsumeOk, Err(ServerClosedChannel), Err(ClientClosedConnection)}, the I/O thread's end of the reply "
+    "queue and of the mailbox each present or gone, and every sequence of <= 2 calls that cannot block; then random "
+    "sequences of up to 4 calls.")
+PROPS["C04"]["explanation"] += (" C04_calls_in_order / C04_call_takes_head / C04_call_returns_head / "
+    "C04_verdict_reported (Model/Handle.v). c04h: results, replies left and requests handed over must equal the "
+    "handle model's; oracle: an Ok call consumed exactly one reply of its own kind, in order; a mismatch is "
+    "FrameUnexpected; a queued verdict is reported; an empty queue with the thread gone is EventLoopDropped.")
+PROPS["C04"]["assumptions"] = [a for a in PROPS["C04"]["assumptions"] if "handle side" not in a]
+
 # properties not claimed, with the reason (kept current)
 NOT_APPLICABLE = {}
